@@ -9,6 +9,7 @@ TT = {"tspec": "TypedTrace.tla", "tcfg": "TypedTrace.cfg"}
 XT = {"tspec": "RtcTrace.tla", "tcfg": "RtcTrace.cfg"}
 IT = {"tspec": "IoTrace.tla", "tcfg": "IoTrace.cfg"}
 WT = {"tspec": "WiringTrace.tla", "tcfg": "WiringTrace.cfg"}
+ET = {"tspec": "RobsErrTrace.tla", "tcfg": "RobsErrTrace.cfg"}
 SIM = ["-simulate", "num={N}", "-depth", "8", "-seed", "{SEED}"]
 
 
@@ -328,6 +329,23 @@ CHECKS = {
             dict(RT, kind="custom", fn=legs.gen_replay, name="robs_known", gen_spec="RobsGen.tla", gen_cfg="RobsGen.cfg", depth=(2, 3),
                  gen_extra=SIM, gen_num=(300, 2000), include="retain_mut", limit=(40, 400), workload="robs_script", max_rounds=3,
                  nontrivial=[r'retain_mut'], min_behaviours=5),
+        ],
+    },
+    "C14": {
+        "rule": "seeded scenarios per collection type (vec, deque, map, set): a mirror (local or across a real connection) and a hand consumer of a "
+                "subscription (snapshot or incremental) while the collection is mutated 6-16 times; cases: event buffer of 1-3 with bursts of mutations "
+                "(lag), collection dropped before done, mirror size limit 2-4, connection cut, and plain; every state of the collection and everything "
+                "the mirror shows is logged; append-only lists of 5-40 elements with up to 4 subscribers joining at any time and consuming at two paces; "
+                "distinct = distinct event sequences; non-trivial = the mirror showed at least one complete view before it finished or failed",
+        "assumptions": ["every mutation used here emits exactly one event, so the contents built from the events pass through the collection's states"],
+        "legs": [
+            model("RobsMirror_MC.cfg", spec="RobsMirror.tla", min_states=80),
+            model("RobsMirror_DevNoMarker.cfg", spec="RobsMirror.tla", expect_violation="C14_NoGap"),
+            dict(ET, kind="trace", name="robs_err", workload="robs_err", n=(400, 6000), opts={},
+                 require={r'"kind":"Lagged"': 60, r'"kind":"Closed"': 60, r'"kind":"MaxSizeExceeded"': 40, r'"kind":"Remote': 40, r'"ev":"e_ev_end"': 60},
+                 nontrivial=[r'"complete":true', r'"ev":"e_detach"']),
+            dict(ET, kind="trace", name="robs_list", workload="robs_list", n=(100, 1500), opts={}, require={r'"ev":"l_recv"': 2000, r'"how":"Closed"': 20, r'"how":"none"': 60},
+                 nontrivial=[r'"ev":"l_sub"']),
         ],
     },
     "C15": {
